@@ -5,6 +5,8 @@ import TvNetTcp.Props.C13
 #print axioms TV.C13.remove_clears
 #print axioms TV.C13.reap_closed_complete
 #print axioms TV.C13.close_decision
+#print axioms TV.C13.accept_once
+#print axioms TV.C13.accept_once_kernel_ops
 #print axioms TV.C13.accept_fifo
 #print axioms TV.C13.refuse_path
 #print axioms TV.C13.refused_after_rst
